@@ -93,7 +93,8 @@ Definition wfix (xtop xrow h len : Z) : Z * Z :=
               then (if xtop + h + h / 2 <=? xrow then xrow - h / 2 else xrow - h + 1) else xtop in
   (xtop, xrow).
 
-(* the xleft rule at the tail of vi(): xcol is the steering column *)
+(* the xleft rule at the tail of vi(): the steering column xcol is wcol = vi_off2col(xb, xrow, xoff), the cursor's own
+   column (since fix 232fd9e; before, the column remembered by j/k) *)
 Definition fix_left (xleft xcol cols : Z) : Z :=
   let xleft := if xleft + cols <=? xcol then xcol - cols / 2 else xleft in
   if xcol <? xleft then (if xcol <? cols then 0 else xcol - cols / 2) else xleft.
